@@ -146,9 +146,10 @@ CanRead(x) == ch[x] # <<>>
 AtEOF(x) == ch[x] = <<>> /\ closed[x]
 
 IsDir(f, p) == p \in DOMAIN f /\ f[p].kd = "d"
-FileEntry == [kd |-> "f", data |-> <<>>, perm |-> 0, tm |-> 0]
-DirEntry == [kd |-> "d", data |-> <<>>, perm |-> 0, tm |-> 0]
-OldFile == [kd |-> "f", data |-> <<<<0, 0>>>>, perm |-> 0, tm |-> 0]
+\* sz: the size announced for the file (ghost, lets the harness cut blocks into bytes)
+FileEntry == [kd |-> "f", data |-> <<>>, perm |-> 0, tm |-> 0, sz |-> 0]
+DirEntry == [kd |-> "d", data |-> <<>>, perm |-> 0, tm |-> 0, sz |-> 0]
+OldFile == [kd |-> "f", data |-> <<<<0, 0>>>>, perm |-> 0, tm |-> 0, sz |-> 1]
 Put(f, p, e) == [q \in DOMAIN f \cup {p} |-> IF q = p THEN e ELSE f[q]]
 \* a new entry at path p changes the modification time of its directory
 Create(f, p, e) ==
@@ -343,7 +344,8 @@ Unwind(f, stk) ==
     IF Len(stk) <= 1 THEN f
     ELSE LET fr == Last(stk)
              f2 == IF cfg.pres /\ Ref(fr.dn) # "kstat" /\ fr.path \in DOMAIN f
-                   THEN [f EXCEPT ![fr.path].perm = fr.dn, ![fr.path].tm = fr.dtm] ELSE f
+                   THEN [f EXCEPT ![fr.path].perm = fr.dn,
+                                  ![fr.path].tm = IF fr.dtm # 0 THEN fr.dtm ELSE @] ELSE f
          IN  Unwind(f2, Front(stk))
 
 \* A lost connection is not an SCP-level end of file: the reader raises an
@@ -367,7 +369,8 @@ Complete(st, f, p, n, tm, id, remoteBad, localBad) ==
     LET any == remoteBad \/ localBad
         statfail == ~any /\ cfg.pres /\ Ref(n) = "kstat"
         f2 == IF ~any /\ cfg.pres /\ ~statfail
-              THEN [f EXCEPT ![p].perm = n, ![p].tm = tm] ELSE f
+              THEN \* setstat without times (no T record) leaves the times alone
+                   [f EXCEPT ![p].perm = n, ![p].tm = IF tm # 0 THEN tm ELSE @] ELSE f
         first == IF StatBeforeReply
                  THEN <<Reply(IF localBad \/ statfail THEN "warn" ELSE "ok", n, id)>>
                  ELSE \* pinned tree: reply first, setstat afterwards; its failure
@@ -421,8 +424,8 @@ SnkRec ==
                                     !.pc = IF tok.z = 0 THEN "stat" ELSE "data"]
                     \* open(..., 'wb'): an existing file is truncated and keeps its mode
                     f1 == IF np \in DOMAIN fs
-                          THEN Put(fs, np, [fs[np] EXCEPT !.data = <<>>, !.tm = 0])
-                          ELSE Create(fs, np, FileEntry)
+                          THEN Put(fs, np, [fs[np] EXCEPT !.data = <<>>, !.tm = 0, !.sz = tok.z])
+                          ELSE Create(fs, np, [FileEntry EXCEPT !.sz = tok.z])
                 IN  IF tok.z = 0 /\ ~SinkReadsStatus
                     THEN LET r == SnkFinish(st, f1, FALSE) IN
                          {[eat EXCEPT !.me = r.me, !.out = <<Reply("ok", 0, tok.id)>> \o r.out,
